@@ -313,6 +313,8 @@ def server_seen(cases):
             if len(cur["seen"]) > 40:
                 request.transport.close()          # a connection that keeps producing requests: stop it
                 raise web.HTTPBadRequest()
+            if request.headers.get("X-Slow") == "1":     # a handler that is still running when more input arrives
+                await asyncio.sleep(1)
             if request.headers.get("X-Read") != "0":     # a handler may ignore the body
                 rec[2] = await request.read()
             return web.Response(text="ok")
